@@ -2,12 +2,15 @@
 # usage: tools/try_mutant.sh <patch.diff> <Cxx> [Cyy ...]  -- applies the patch to /repo, runs the quick checks, undoes it
 patch="$1"; shift
 cd /verif
+# the evidence files in the tree must come from the unchanged /repo: keep them aside while a seeded change is applied
+rm -rf .cache/evidence-keep && cp -r evidence .cache/evidence-keep
 git -C /repo apply "$patch" || { echo "patch does not apply"; exit 2; }
 for p in "$@"; do
   ./check "$p" --tier quick > /tmp/mutant_$p.out 2>&1; rc=$?
   echo "== $p exit=$rc"; grep -E "^(VIOLATION|KNOWN-FINDING|PASS|FAIL)" /tmp/mutant_$p.out
 done
 git -C /repo checkout -- . 
+rm -rf evidence && mv .cache/evidence-keep evidence
 git -C /repo status --short | head -3
 # rebuild the harness on the restored tree so that a later manual probe does not use a mutant binary
 (cd /verif && python3 -c "import sys; sys.path.insert(0,'tools'); import common; common.build_harness()") >/dev/null 2>&1
